@@ -22,6 +22,10 @@ WITNESSES = {
         "src": progen.HEADER + "n = 3\nfor i in range(n):\n    n = n - 1\n    mon.write(i)\n", "loops": 0},
     "F-C01-retype-truncates": {
         "src": progen.HEADER + "x = 1\nx = 2.5\nmon.write(x)\n", "loops": 0},
+    "F-C01-hoisted-decl-reinit": {
+        "src": progen.HEADER + "w = 0\nwhile w < 2:\n    for k in range(1 - w):\n        z = 5\n    w = w + 1\nmon.write(z)\n", "loops": 0},
+    "F-C01-loop-local-reinit": {
+        "src": progen.HEADER + "w = 0\nwhile True:\n    if w == 0:\n        z = 5\n    w = w + 1\n    mon.write(z)\n", "loops": 2},
 }
 
 
@@ -56,8 +60,8 @@ CORPUS = [
 PINS = {'"A0"': 14, '"A1"': 15, "4": 4}
 
 
-def gen_inputs(rng):
-    if rng.random() < 0.5:      # constant reading per pin: the program is a pure function, the models can run it
+def gen_inputs(rng, force_const=False):
+    if rng.random() < 0.5 or force_const:      # constant reading per pin: the program is a pure function, the models can run it
         return "ar 14 %d\nar 15 %d\ndr 4 %d\n" % (rng.choice([0, 5, 300, 1023, 512]), rng.choice([1, 2, 700]), rng.choice([0, 1]))
     return "ar 14 %s\nar 15 %s\ndr 4 %s\n" % (
         " ".join(str(rng.choice([0, 5, 300, 1023, 512])) for _ in range(6)),
@@ -95,6 +99,85 @@ def run_pair(srcs, inputs, loops):
                     "fw": tracecmp.fw_events(r["events"])[:60], "py": tracecmp.py_events(y["events"])[:60],
                     "fw_all": r["events"], "py_all": y["events"]})
     return out
+
+
+INT_MAX = 2 ** 31 - 1
+
+
+class _Wrap(ast.NodeTransformer):
+    """wrap every loaded expression in __chk(...) (records integers outside the 32-bit range)"""
+
+    def visit(self, node):
+        node = self.generic_visit(node)
+        if isinstance(node, ast.expr) and not isinstance(node, (ast.JoinedStr, ast.FormattedValue, ast.Starred)) \
+                and isinstance(getattr(node, "ctx", ast.Load()), ast.Load):
+            if isinstance(node, ast.Name) and node.id in ("range", "mon", "sleep", "abs", "min", "max", "int", "float", "bool", "str", "len",
+                                                          "digital_write", "analog_write", "digital_read", "analog_read", "__chk"):
+                return node
+            if isinstance(node, ast.Attribute):
+                return node
+            return ast.copy_location(ast.Call(func=ast.Name(id="__chk", ctx=ast.Load()), args=[node], keywords=[]), node)
+        return node
+
+
+def leaves_int32(script, inp, loops):
+    """True iff the CPython execution of the generated script (setup + `loops` passes) computes an int outside
+    the 32-bit range of the g++ mock (C int is modelled as Z with an explicit no-overflow guard, DESIGN section 1);
+    None if the script cannot be analysed (it is then kept inside the guard)."""
+    body = script[len(progen.HEADER):] if script.startswith(progen.HEADER) else script
+    try:
+        tree = ast.parse(body)
+    except SyntaxError:
+        return None
+    for i, st in enumerate(tree.body):
+        if isinstance(st, ast.While) and isinstance(st.test, ast.Constant) and st.test.value is True:
+            tree.body[i] = ast.copy_location(
+                ast.For(target=ast.Name(id="__pass", ctx=ast.Store()),
+                        iter=ast.Call(func=ast.Name(id="range", ctx=ast.Load()), args=[ast.Constant(loops)], keywords=[]),
+                        body=st.body, orelse=[]), st)
+    tree = ast.fix_missing_locations(_Wrap().visit(tree))
+    seen = [False]
+    feeds = {}
+    for line in inp.splitlines():
+        w = line.split()
+        if len(w) >= 3 and w[0] in ("ar", "dr"):
+            feeds[(w[0], int(w[1]))] = [int(x) for x in w[2:]]
+
+    def chk(v):
+        if isinstance(v, int) and not isinstance(v, bool) and abs(v) > INT_MAX:
+            seen[0] = True
+        return v
+
+    def read(kind):
+        def f(pin):
+            k = (kind, {"A0": 14, "A1": 15}.get(pin, pin))
+            q = feeds.get(k) or [0]
+            return q.pop(0) if len(q) > 1 else q[0]
+        return f
+
+    class Mon:
+        def write(self, v):
+            return None
+    steps = [0]
+
+    def tracer(frame, event, arg):
+        steps[0] += 1
+        if steps[0] > 200000:
+            raise TimeoutError()
+        return tracer
+    env = {"__chk": chk, "mon": Mon(), "sleep": lambda ms: None, "digital_write": lambda p, v: None, "analog_write": lambda p, v: None,
+           "analog_read": read("ar"), "digital_read": read("dr")}
+    import sys
+    old = sys.gettrace()
+    try:
+        sys.settrace(tracer)
+        exec(compile(tree, "<generated>", "exec"), env)
+    except Exception as e:  # noqa  (NameError etc.: the reference run decides; nothing to add here)
+        if C.os.environ.get('C01_DEBUG'):
+            print('leaves_int32:', type(e).__name__, e)
+    finally:
+        sys.settrace(old)
+    return seen[0]
 
 
 EFFECTS = ("S ", "D ", "DW ", "AW ")
@@ -192,6 +275,36 @@ def same_lines(a, b):
     return True
 
 
+def model_predicts_deviation(ctx, p, l):
+    """For a script whose firmware trace differs from CPython's: does the faithful model (Lang.Transl + StmtSem,
+    run by Lang.StmtExec) itself compute a C trace different from its Python trace?  Then the script is outside
+    the guard of C01_stmt_preserve_partial and the deviation is of a class already modelled (the listed
+    findings: re-evaluated range bound, re-typed variable, re-initialised hoisted declaration).  None = the
+    models cannot run this script (helper functions, varying inputs): no excuse is made for it."""
+    exe = ctx.exes.get("C01_stmt")
+    if exe is None or p.get("funcs"):
+        return None
+    an = SW.Annotator()
+    pre = an.stmts(p["pre"])
+    main = an.stmts(p["main"]) if p["main"] is not None else None
+    if not an.ok:
+        return None
+    ee = exec_exprs(an.exprs, const_inputs(p["input"]))
+    if ee is None:
+        return None
+    impl = C.run_impl("c01_stmt_impl.py", {"cases": [{"src": progen.render(p), "exprs": an.exprs}]})
+    r = impl["results"][0]
+    w = [1, SW.wire_stmts(pre, r["consts"]), [] if main is None else [SW.wire_stmts(main, r["consts"])], ee[0], l, 600]
+    o = C.run_model(exe, [w])[0]
+    if not isinstance(o, list) or len(o) != 4 or o[0] != 0 or o[2][0] != 1 or o[3][0] == 2:
+        return None
+    if bool(o[1]):
+        return False                                   # inside the proved guard: never excused
+    if o[3][0] != 1:
+        return True
+    return not same_lines(model_lines(o[3][1], ee[1]), model_lines(o[2][1], ee[1]))
+
+
 def exec_correspondence(ctx, exe, items):
     """items: (src_body, program, annotator, pre, main, impl_result, loops, pair_result).
     Runs both sides of the statement model (Lang.StmtExec: Python expression semantics shared by
@@ -200,7 +313,7 @@ def exec_correspondence(ctx, exe, items):
     jobs = []
     for it in items:
         src, p, an, pre, main, r, l, pr = it
-        if pr is None or pr["status"] not in ("equal", "DIFF", "py-undefined"):
+        if pr is None or pr["status"] not in ("equal", "DIFF", "py-undefined", "outside-guard:model-predicted-deviation"):
             st["skipped:" + (pr["status"] if pr else "none")] += 1
             continue
         ee = exec_exprs(an.exprs, const_inputs(p["input"]))
@@ -328,14 +441,20 @@ def run_unit(ctx: C.Ctx):
         f = FEATURE_SETS[i % len(FEATURE_SETS)]
         g = progen.Gen(rng, f)
         p = g.program(with_main=rng.random() < 0.8)
-        p["input"] = gen_inputs(rng)
+        p["input"] = gen_inputs(rng, force_const="branch_first" in f)     # these are always run through the models too
         progs.append(p)
         feats.append(f)
     srcs = [progen.render(p) for p in progs]
     loops = [(rng.choice([0, 1, 2, 3]) if p["main"] is not None else 0) for p in progs]
     res = run_pair(srcs, [p["input"] for p in progs], loops)
     stats = collections.Counter()
+    outside = []
     for s, p, f, l, r in zip(srcs, progs, feats, loops, res):
+        if r["status"] in ("DIFF", "equal") and leaves_int32(s, p["input"], l):
+            r["status"] = "outside-guard:int32-overflow"        # C int is 32 bits on the mock; never blamed (DESIGN section 1)
+        if r["status"] == "DIFF" and model_predicts_deviation(ctx, p, l):
+            r["status"] = "outside-guard:model-predicted-deviation"
+            outside.append(s[len(progen.HEADER):])
         stats[r["status"]] += 1
         body = s[len(progen.HEADER):]
         if r["status"] == "DIFF":
@@ -374,7 +493,7 @@ def run_unit(ctx: C.Ctx):
                     "loop_passes": dict(collections.Counter(loops)), "with_main_loop": sum(1 for p in progs if p["main"] is not None),
                     "constant_inputs": sum(1 for p in progs if len(const_inputs(p["input"])) == 3)}
     return {
-        "distribution": distribution,
+        "distribution": distribution, "outside_guard_samples": outside[:3],
         "evaluations": len(progs) + ir["ir_cases"] + ir.get("exec_cases", 0), "programs_by_status": dict(stats), "ir_correspondence": ir,
         "distinct_nontrivial": len({s for s, r in zip(srcs, res) if r["status"] == "equal" and len(r["py"]) >= 3}),
         "samples": [srcs[0][len(progen.HEADER):], srcs[-1][len(progen.HEADER):]],
